@@ -1,8 +1,1024 @@
-//! Family "vbuild" (stub: not implemented yet).
-use crate::Ctx;
-use serde_json::Value;
+//! Family "vbuild": static functions and filters (VBuilder, VFunc, VFilter)
+//! driven by an operation script (properties C07, C08, C17 and the family's
+//! share of C11, C12, C15).
+//!
+//! Keys are never listed in scripts or traces: an episode names a *key
+//! function* `K` (index -> key, injective on indices) and the `build` op
+//! names a *key sequence* (position -> index: the identity on `0..n` with a
+//! few substitutions, which is how duplicates are expressed). Values are given
+//! by a recipe on positions. Queries name key *indices*. The executor turns
+//! indices into keys, calls the real code and records what came back; whether
+//! an index is a member, what its value should be, which error a fault
+//! placement must produce and whether a false-positive count is acceptable is
+//! decided by `spec/VBuild.tla` through `spec/Trace_VBuild.tla`.
+//!
+//! The `build` event also carries the hook events of `VBuilder::build_loop` /
+//! `try_seed` (`sux::verif::set_build_event`) and the read/rewind counts seen
+//! by the fault-injecting lenders, so that the trace specification can check
+//! the build-loop state machine.
 
-pub fn run(_ep: &Value, _ctx: &mut Ctx) {
-    eprintln!("family vbuild not implemented");
-    std::process::exit(2);
+use crate::util::*;
+use crate::{guard, Ctx};
+use common_traits::{CastableInto, UpcastableInto};
+use dsi_progress_logger::no_logging;
+use epserde::deser::{DeserType, Deserialize, Flags, MemCase};
+use epserde::ser::Serialize;
+use epserde::traits::{TypeHash, ZeroCopy};
+use lender::{Lender, Lending};
+use mem_dbg::{MemSize, SizeFlags};
+use serde_json::{json, Value};
+use std::collections::{HashMap, HashSet};
+use std::borrow::Borrow;
+use std::io;
+use std::sync::{Arc, Mutex};
+use sux::bits::BitFieldVec;
+use sux::dict::VFilter;
+use sux::func::shard_edge::{FuseLge3FullSigs, FuseLge3NoShards, FuseLge3Shards, ShardEdge};
+#[cfg(feature = "mwhc")]
+use sux::func::shard_edge::{Mwhc3NoShards, Mwhc3Shards};
+use sux::func::{BuildError, VBuilder, VFunc};
+use sux::traits::bit_field_slice::{BitFieldSlice, Word};
+use sux::utils::{RewindableIoLender, Sig, ToSig};
+
+// --------------------------------------------------------------------------
+// hook events
+// --------------------------------------------------------------------------
+static EVENTS: Mutex<Vec<(&'static str, u64)>> = Mutex::new(Vec::new());
+
+fn hook(kind: &'static str, v: u64) {
+    EVENTS.lock().unwrap().push((kind, v));
+}
+
+// --------------------------------------------------------------------------
+// keys and values by recipe
+// --------------------------------------------------------------------------
+#[derive(Clone, Debug)]
+enum KeyFn {
+    /// key(i) = start + i
+    Range { start: u64 },
+    /// key(i) = a * i + c (mod 2^64), a odd
+    Affine { a: u64, c: u64 },
+    /// key(i) = prefix ++ decimal(i) ++ 'x' * pad
+    Str { prefix: String, pad: usize },
+}
+
+impl KeyFn {
+    fn parse(v: &Value) -> KeyFn {
+        match v["t"].as_str().unwrap_or("range") {
+            "range" => KeyFn::Range { start: v["start"].as_u64().unwrap_or(0) },
+            "affine" => KeyFn::Affine { a: of_limbs(&v["a"]) as u64, c: of_limbs(&v["c"]) as u64 },
+            "str" => KeyFn::Str {
+                prefix: v["prefix"].as_str().unwrap_or("").to_string(),
+                pad: v["pad"].as_u64().unwrap_or(0) as usize,
+            },
+            t => panic!("unknown key function {t}"),
+        }
+    }
+    fn int_key(&self, i: u64) -> u64 {
+        match self {
+            KeyFn::Range { start } => start.wrapping_add(i),
+            KeyFn::Affine { a, c } => a.wrapping_mul(i).wrapping_add(*c),
+            KeyFn::Str { .. } => panic!("string key function used with an integer key type"),
+        }
+    }
+    fn str_key(&self, i: u64, buf: &mut String) {
+        use std::fmt::Write;
+        buf.clear();
+        match self {
+            KeyFn::Str { prefix, pad } => {
+                buf.push_str(prefix);
+                write!(buf, "{}", i).unwrap();
+                for _ in 0..*pad {
+                    buf.push('x');
+                }
+            }
+            _ => write!(buf, "{}", self.int_key(i)).unwrap(),
+        }
+    }
+}
+
+/// position -> index: identity on 0..n except for the substitutions
+#[derive(Debug)]
+struct KeySeq {
+    f: KeyFn,
+    n: usize,
+    subst: HashMap<usize, u64>,
+}
+
+impl KeySeq {
+    fn idx_at(&self, pos: usize) -> u64 {
+        *self.subst.get(&pos).unwrap_or(&(pos as u64))
+    }
+}
+
+/// value(pos) = ((a * pos + c) mod 2^m) + (2^hi if present)
+#[derive(Clone, Debug)]
+struct ValFn {
+    a: u64,
+    c: u64,
+    m: u32,
+    hi: Option<u32>,
+    /// the value source ends after this many values (None: never)
+    vn: Option<usize>,
+}
+
+impl ValFn {
+    fn parse(v: &Value) -> ValFn {
+        ValFn {
+            a: v["a"].as_u64().unwrap_or(1),
+            c: v["c"].as_u64().unwrap_or(0),
+            m: v["m"].as_u64().unwrap_or(30) as u32,
+            hi: v["hi"].as_array().and_then(|a| a.first()).and_then(|x| x.as_u64()).map(|x| x as u32),
+            vn: v["vn"].as_array().and_then(|a| a.first()).and_then(|x| x.as_u64()).map(|x| x as usize),
+        }
+    }
+    fn at(&self, pos: usize) -> u64 {
+        let low = (self.a.wrapping_mul(pos as u64).wrapping_add(self.c)) & ((1u64 << self.m) - 1);
+        low + self.hi.map_or(0, |t| 1u64 << t)
+    }
+}
+
+const KEY: u8 = 0;
+const VAL: u8 = 1;
+
+#[derive(Default, Debug)]
+struct Faults {
+    reads: HashSet<(u8, usize, usize)>,
+    rewinds: HashSet<(u8, usize)>,
+}
+
+impl Faults {
+    fn parse(op: &Value) -> Faults {
+        let mut f = Faults::default();
+        if let Some(a) = op["faults"].as_array() {
+            for x in a {
+                let src = if x["src"] == "val" { VAL } else { KEY };
+                if x["kind"] == "rewind" {
+                    f.rewinds.insert((src, get_usize(x, "pass")));
+                } else {
+                    f.reads.insert((src, get_usize(x, "pass"), get_usize(x, "idx")));
+                }
+            }
+        }
+        f
+    }
+}
+
+/// What the lenders saw: per pass the number of `next` calls on each source,
+/// and the number of `rewind` calls on each source.
+#[derive(Default, Debug)]
+struct Seen {
+    kreads: Vec<usize>,
+    vreads: Vec<usize>,
+    krewinds: usize,
+    vrewinds: usize,
+}
+
+fn bump(v: &mut Vec<usize>, pass: usize) {
+    if v.len() <= pass {
+        v.resize(pass + 1, 0);
+    }
+    v[pass] += 1;
+}
+
+// ---- key type and key lender ---------------------------------------------------
+/// The key type of every function/filter built here. `VFunc<T, ..>` depends on
+/// `T` only through `T::to_sig`; `HKey` delegates to the crate's own `ToSig`
+/// implementations for `usize`, `u64` and `str`, chosen by the episode field
+/// `kt`, so that one instantiation of the (large) builder code serves the
+/// three key types.
+#[derive(Debug)]
+pub enum HKey {
+    Usize(usize),
+    U64(u64),
+    Str(String),
+}
+
+impl ToSig<[u64; 2]> for HKey {
+    fn to_sig(key: impl Borrow<Self>, seed: u64) -> [u64; 2] {
+        match key.borrow() {
+            HKey::Usize(x) => <usize as ToSig<[u64; 2]>>::to_sig(x, seed),
+            HKey::U64(x) => <u64 as ToSig<[u64; 2]>>::to_sig(x, seed),
+            HKey::Str(s) => <str as ToSig<[u64; 2]>>::to_sig(s.as_str(), seed),
+        }
+    }
+}
+
+impl ToSig<[u64; 1]> for HKey {
+    fn to_sig(key: impl Borrow<Self>, seed: u64) -> [u64; 1] {
+        match key.borrow() {
+            HKey::Usize(x) => <usize as ToSig<[u64; 1]>>::to_sig(x, seed),
+            HKey::U64(x) => <u64 as ToSig<[u64; 1]>>::to_sig(x, seed),
+            HKey::Str(s) => <str as ToSig<[u64; 1]>>::to_sig(s.as_str(), seed),
+        }
+    }
+}
+
+impl TypeHash for HKey {
+    fn type_hash(hasher: &mut impl core::hash::Hasher) {
+        use core::hash::Hash;
+        "HKey".hash(hasher);
+    }
+}
+
+#[derive(Clone, Copy, Debug, PartialEq)]
+enum Kt {
+    Usize,
+    U64,
+    Str,
+}
+
+impl Kt {
+    fn parse(s: &str) -> Kt {
+        match s {
+            "usize" => Kt::Usize,
+            "u64" => Kt::U64,
+            "str" => Kt::Str,
+            k => panic!("unknown key type {k}"),
+        }
+    }
+    /// sets `key` to the key of index `i`
+    fn set(self, kf: &KeyFn, i: u64, key: &mut HKey) {
+        match self {
+            Kt::Usize => *key = HKey::Usize(kf.int_key(i) as usize),
+            Kt::U64 => *key = HKey::U64(kf.int_key(i)),
+            Kt::Str => {
+                if let HKey::Str(s) = key {
+                    kf.str_key(i, s);
+                } else {
+                    let mut s = String::new();
+                    kf.str_key(i, &mut s);
+                    *key = HKey::Str(s);
+                }
+            }
+        }
+    }
+}
+
+struct KeyLender {
+    seq: Arc<KeySeq>,
+    kt: Kt,
+    faults: Arc<Faults>,
+    seen: Arc<Mutex<Seen>>,
+    pass: usize,
+    pos: usize,
+    cur: HKey,
+}
+
+impl<'lend> Lending<'lend> for KeyLender {
+    type Lend = Result<&'lend HKey, io::Error>;
+}
+
+impl Lender for KeyLender {
+    fn next(&mut self) -> Option<Result<&'_ HKey, io::Error>> {
+        bump(&mut self.seen.lock().unwrap().kreads, self.pass);
+        let pos = self.pos;
+        if self.faults.reads.contains(&(KEY, self.pass, pos)) {
+            self.pos += 1;
+            return Some(Err(io::Error::other(format!("key:{}:{}", self.pass, pos))));
+        }
+        if pos >= self.seq.n {
+            return None;
+        }
+        self.pos += 1;
+        self.kt.set(&self.seq.f, self.seq.idx_at(pos), &mut self.cur);
+        Some(Ok(&self.cur))
+    }
+}
+
+impl RewindableIoLender<HKey> for KeyLender {
+    type Error = io::Error;
+    fn rewind(mut self) -> Result<Self, io::Error> {
+        self.pass += 1;
+        self.seen.lock().unwrap().krewinds += 1;
+        if self.faults.rewinds.contains(&(KEY, self.pass)) {
+            return Err(io::Error::other(format!("key:rewind:{}", self.pass)));
+        }
+        self.pos = 0;
+        Ok(self)
+    }
+}
+
+// ---- value lender ------------------------------------------------------------
+struct ValLender<W> {
+    f: ValFn,
+    faults: Arc<Faults>,
+    seen: Arc<Mutex<Seen>>,
+    pass: usize,
+    pos: usize,
+    cur: W,
+}
+
+trait WordOf: Copy + 'static {
+    fn of_u64(x: u64) -> Self;
+}
+macro_rules! word_of {
+    ($($t:ty),*) => {$(
+        impl WordOf for $t {
+            fn of_u64(x: u64) -> Self {
+                <$t>::try_from(x).expect("script value does not fit the value word")
+            }
+        }
+    )*};
+}
+word_of!(u8, u16, u32, u64, usize);
+
+impl<'lend, W: WordOf> Lending<'lend> for ValLender<W> {
+    type Lend = Result<&'lend W, io::Error>;
+}
+
+impl<W: WordOf> Lender for ValLender<W> {
+    fn next(&mut self) -> Option<Result<&'_ W, io::Error>> {
+        bump(&mut self.seen.lock().unwrap().vreads, self.pass);
+        let pos = self.pos;
+        if self.faults.reads.contains(&(VAL, self.pass, pos)) {
+            self.pos += 1;
+            return Some(Err(io::Error::other(format!("val:{}:{}", self.pass, pos))));
+        }
+        if self.f.vn.map_or(false, |vn| pos >= vn) {
+            return None;
+        }
+        self.pos += 1;
+        self.cur = W::of_u64(self.f.at(pos));
+        Some(Ok(&self.cur))
+    }
+}
+
+impl<W: WordOf> RewindableIoLender<W> for ValLender<W> {
+    type Error = io::Error;
+    fn rewind(mut self) -> Result<Self, io::Error> {
+        self.pass += 1;
+        self.seen.lock().unwrap().vrewinds += 1;
+        if self.faults.rewinds.contains(&(VAL, self.pass)) {
+            return Err(io::Error::other(format!("val:rewind:{}", self.pass)));
+        }
+        self.pos = 0;
+        Ok(self)
+    }
+}
+
+// --------------------------------------------------------------------------
+// type-erased queries
+// --------------------------------------------------------------------------
+trait Q {
+    fn is_filter(&self) -> bool;
+    fn is_bfv(&self) -> bool;
+    fn q_len(&self) -> usize;
+    fn q_is_empty(&self) -> bool;
+    fn q_get(&self, k: &HKey) -> u128;
+    fn q_get_unaligned(&self, k: &HKey) -> Option<u128>;
+    fn q_contains(&self, k: &HKey) -> Option<bool>;
+    fn q_contains_unaligned(&self, k: &HKey) -> Option<bool>;
+    fn q_index(&self, k: &HKey) -> Option<bool>;
+    fn q_hash_bits(&self) -> Option<u32>;
+    fn q_mem(&self) -> usize;
+}
+
+/// Owned instances can be serialized and loaded back.
+trait Owned: Q {
+    fn as_q(&self) -> &dyn Q;
+    fn reload(&self, mode: &str) -> Result<Loaded, String>;
+}
+
+enum Loaded {
+    Full(Box<dyn Owned>),
+    View(Box<dyn Q>),
+}
+
+impl<W, D, S, E> Q for VFunc<HKey, W, D, S, E>
+where
+    HKey: ToSig<S>,
+    W: ZeroCopy + Word + UpcastableInto<u128>,
+    D: BitFieldSlice<W>,
+    S: Sig,
+    E: ShardEdge<S, 3>,
+    VFunc<HKey, W, D, S, E>: MemSize + BfvExt,
+{
+    fn is_filter(&self) -> bool {
+        false
+    }
+    fn is_bfv(&self) -> bool {
+        <Self as BfvExt>::IS_BFV
+    }
+    fn q_len(&self) -> usize {
+        self.len()
+    }
+    fn q_is_empty(&self) -> bool {
+        self.is_empty()
+    }
+    fn q_get(&self, k: &HKey) -> u128 {
+        self.get(k).upcast()
+    }
+    fn q_get_unaligned(&self, k: &HKey) -> Option<u128> {
+        self.ext_get_unaligned(k)
+    }
+    fn q_contains(&self, _k: &HKey) -> Option<bool> {
+        None
+    }
+    fn q_contains_unaligned(&self, _k: &HKey) -> Option<bool> {
+        None
+    }
+    fn q_index(&self, _k: &HKey) -> Option<bool> {
+        None
+    }
+    fn q_hash_bits(&self) -> Option<u32> {
+        None
+    }
+    fn q_mem(&self) -> usize {
+        self.mem_size(SizeFlags::default())
+    }
+}
+
+impl<W, D, S, E> Q for VFilter<W, VFunc<HKey, W, D, S, E>>
+where
+    HKey: ToSig<S>,
+    W: ZeroCopy + Word + UpcastableInto<u128>,
+    D: BitFieldSlice<W>,
+    S: Sig,
+    E: ShardEdge<S, 3>,
+    u64: CastableInto<W>,
+    VFilter<W, VFunc<HKey, W, D, S, E>>: MemSize + BfvExt,
+{
+    fn is_filter(&self) -> bool {
+        true
+    }
+    fn is_bfv(&self) -> bool {
+        <Self as BfvExt>::IS_BFV
+    }
+    fn q_len(&self) -> usize {
+        self.len()
+    }
+    fn q_is_empty(&self) -> bool {
+        self.is_empty()
+    }
+    fn q_get(&self, k: &HKey) -> u128 {
+        self.get(k).upcast()
+    }
+    fn q_get_unaligned(&self, _k: &HKey) -> Option<u128> {
+        None
+    }
+    fn q_contains(&self, k: &HKey) -> Option<bool> {
+        Some(self.contains(k))
+    }
+    fn q_contains_unaligned(&self, k: &HKey) -> Option<bool> {
+        self.ext_contains_unaligned(k)
+    }
+    fn q_index(&self, k: &HKey) -> Option<bool> {
+        Some(self[k])
+    }
+    fn q_hash_bits(&self) -> Option<u32> {
+        Some(self.hash_bits())
+    }
+    fn q_mem(&self) -> usize {
+        self.mem_size(SizeFlags::default())
+    }
+}
+
+/// The unaligned query variants exist on owned bit-field-vector backends only.
+trait BfvExt {
+    const IS_BFV: bool;
+    fn ext_get_unaligned(&self, _k: &HKey) -> Option<u128> {
+        None
+    }
+    fn ext_contains_unaligned(&self, _k: &HKey) -> Option<bool> {
+        None
+    }
+}
+
+macro_rules! plain_ext {
+    ($bfv:expr, $($B:ty),*) => {$(
+        impl<'a, W: ZeroCopy + Word, S: Sig, E: ShardEdge<S, 3>> BfvExt for VFunc<HKey, W, $B, S, E>
+        where
+            HKey: ToSig<S>,
+            $B: BitFieldSlice<W>,
+        {
+            const IS_BFV: bool = $bfv;
+        }
+        impl<'a, W: ZeroCopy + Word, S: Sig, E: ShardEdge<S, 3>> BfvExt for VFilter<W, VFunc<HKey, W, $B, S, E>>
+        where
+            HKey: ToSig<S>,
+            $B: BitFieldSlice<W>,
+        {
+            const IS_BFV: bool = $bfv;
+        }
+    )*};
+}
+plain_ext!(false, Box<[W]>, &'a [W]);
+// zero-copy instances over a bit-field vector: the unaligned variants are not
+// implemented for borrowed backends
+plain_ext!(true, BitFieldVec<W, &'a [W]>);
+
+impl<W: ZeroCopy + Word + UpcastableInto<u128>, S: Sig, E: ShardEdge<S, 3>> BfvExt
+    for VFunc<HKey, W, BitFieldVec<W>, S, E>
+where
+    HKey: ToSig<S>,
+{
+    const IS_BFV: bool = true;
+    fn ext_get_unaligned(&self, k: &HKey) -> Option<u128> {
+        Some(self.get_unaligned(k).upcast())
+    }
+}
+impl<W: ZeroCopy + Word, S: Sig, E: ShardEdge<S, 3>> BfvExt for VFilter<W, VFunc<HKey, W, BitFieldVec<W>, S, E>>
+where
+    HKey: ToSig<S>,
+    u64: CastableInto<W>,
+{
+    const IS_BFV: bool = true;
+    fn ext_contains_unaligned(&self, k: &HKey) -> Option<bool> {
+        Some(self.contains_unaligned(k))
+    }
+}
+
+macro_rules! delegate_q {
+    ($target:ident) => {
+        fn is_filter(&self) -> bool {
+            self.$target().is_filter()
+        }
+        fn is_bfv(&self) -> bool {
+            self.$target().is_bfv()
+        }
+        fn q_len(&self) -> usize {
+            self.$target().q_len()
+        }
+        fn q_is_empty(&self) -> bool {
+            self.$target().q_is_empty()
+        }
+        fn q_get(&self, k: &HKey) -> u128 {
+            self.$target().q_get(k)
+        }
+        fn q_get_unaligned(&self, k: &HKey) -> Option<u128> {
+            self.$target().q_get_unaligned(k)
+        }
+        fn q_contains(&self, k: &HKey) -> Option<bool> {
+            self.$target().q_contains(k)
+        }
+        fn q_contains_unaligned(&self, k: &HKey) -> Option<bool> {
+            self.$target().q_contains_unaligned(k)
+        }
+        fn q_index(&self, k: &HKey) -> Option<bool> {
+            self.$target().q_index(k)
+        }
+        fn q_hash_bits(&self) -> Option<u32> {
+            self.$target().q_hash_bits()
+        }
+        fn q_mem(&self) -> usize {
+            self.$target().q_mem()
+        }
+    };
+}
+
+trait Inner {
+    type X: Q;
+    fn inner(&self) -> &Self::X;
+}
+impl<X: Q> Inner for MemCase<X> {
+    type X = X;
+    fn inner(&self) -> &X {
+        self
+    }
+}
+impl<X: Q> Q for MemCase<X> {
+    delegate_q!(inner);
+}
+
+/// A zero-copy instance together with the buffer it borrows from.
+struct EpsView<X> {
+    x: X, // dropped before the buffer
+    _buf: Vec<u128>,
+}
+
+impl<X: Q> Inner for EpsView<X> {
+    type X = X;
+    fn inner(&self) -> &X {
+        &self.x
+    }
+}
+impl<X: Q> Q for EpsView<X> {
+    delegate_q!(inner);
+}
+
+impl<F> Owned for F
+where
+    F: Q + Serialize + Deserialize + 'static,
+    for<'a> DeserType<'a, F>: Q,
+{
+    fn as_q(&self) -> &dyn Q {
+        self
+    }
+    fn reload(&self, mode: &str) -> Result<Loaded, String> {
+        match mode {
+            "full" => {
+                let mut bytes: Vec<u8> = Vec::new();
+                self.serialize(&mut bytes).map_err(|e| format!("serialize: {e}"))?;
+                let mut cur = std::io::Cursor::new(bytes);
+                let f = F::deserialize_full(&mut cur).map_err(|e| format!("deserialize_full: {e}"))?;
+                Ok(Loaded::Full(Box::new(f)))
+            }
+            "eps" => {
+                let mut bytes: Vec<u8> = Vec::new();
+                self.serialize(&mut bytes).map_err(|e| format!("serialize: {e}"))?;
+                // 16-byte aligned copy of the serialized form
+                let mut buf: Vec<u128> = vec![0; bytes.len().div_ceil(16)];
+                let slice: &mut [u8] =
+                    unsafe { std::slice::from_raw_parts_mut(buf.as_mut_ptr() as *mut u8, bytes.len()) };
+                slice.copy_from_slice(&bytes);
+                // SAFETY: the view is dropped before the buffer (field order of
+                // EpsView) and the buffer is never moved out or modified.
+                let st: &'static [u8] = unsafe { std::slice::from_raw_parts(buf.as_ptr() as *const u8, bytes.len()) };
+                let x = F::deserialize_eps(st).map_err(|e| format!("deserialize_eps: {e}"))?;
+                Ok(Loaded::View(Box::new(EpsView { x, _buf: buf })))
+            }
+            "mmap" => {
+                let dir = tempfile::tempdir().map_err(|e| e.to_string())?;
+                let path = dir.path().join("s.bin");
+                self.store(&path).map_err(|e| format!("store: {e}"))?;
+                let m = F::mmap(&path, Flags::empty()).map_err(|e| format!("mmap: {e}"))?;
+                // the mapping stays valid after the file is unlinked
+                Ok(Loaded::View(Box::new(m)))
+            }
+            m => Err(format!("unknown reload mode {m}")),
+        }
+    }
+}
+
+// --------------------------------------------------------------------------
+// building
+// --------------------------------------------------------------------------
+struct BuildOut {
+    built: Option<Box<dyn Owned>>,
+    err: Option<(String, String)>,
+}
+
+fn classify(e: anyhow::Error) -> (String, String) {
+    match e.downcast::<BuildError>() {
+        Ok(BuildError::DuplicateKey) => ("DuplicateKey".into(), String::new()),
+        Ok(BuildError::DuplicateLocalSignatures) => ("DuplicateLocalSignatures".into(), String::new()),
+        Ok(BuildError::ValueTooLarge) => ("ValueTooLarge".into(), String::new()),
+        Err(e) => match e.downcast::<io::Error>() {
+            Ok(ioe) => ("io".into(), ioe.to_string()),
+            Err(e) => ("other".into(), format!("{e}")),
+        },
+    }
+}
+
+fn opt_u64(v: &Value) -> Option<u64> {
+    match v {
+        Value::Array(a) => a.first().and_then(|x| x.as_u64()),
+        Value::Number(n) => n.as_u64(),
+        _ => None,
+    }
+}
+
+fn opt_bool(v: &Value) -> Option<bool> {
+    match v {
+        Value::Array(a) => a.first().and_then(|x| x.as_bool()),
+        Value::Bool(b) => Some(*b),
+        _ => None,
+    }
+}
+
+macro_rules! configure {
+    ($b:expr, $op:expr) => {{
+        let op: &Value = $op;
+        let mut b = $b;
+        if let Some(h) = opt_u64(&op["hint"]) {
+            b = b.expected_num_keys(h as usize);
+        }
+        if let Some(t) = opt_u64(&op["threads"]) {
+            b = b.max_num_threads(t as usize);
+        }
+        if let Some(o) = opt_bool(&op["offline"]) {
+            b = b.offline(o);
+        }
+        if let Some(c) = opt_bool(&op["check_dups"]) {
+            b = b.check_dups(c);
+        }
+        if let Some(l) = opt_bool(&op["low_mem"]) {
+            b = b.low_mem(l);
+        }
+        if let Some(s) = opt_u64(&op["seed"]) {
+            b = b.seed(s);
+        }
+        if let Some(l) = opt_u64(&op["log2_buckets"]) {
+            b = b.log2_buckets(l as u32);
+        }
+        if let Some(e) = op["eps"].as_str() {
+            b = b.eps(e.parse::<f64>().expect("eps"));
+        }
+        b
+    }};
+}
+
+struct Inputs {
+    seq: Arc<KeySeq>,
+    kt: Kt,
+    faults: Arc<Faults>,
+    seen: Arc<Mutex<Seen>>,
+    vf: ValFn,
+}
+
+fn key_lender(inp: &Inputs) -> KeyLender {
+    KeyLender {
+        seq: inp.seq.clone(),
+        kt: inp.kt,
+        faults: inp.faults.clone(),
+        seen: inp.seen.clone(),
+        pass: 0,
+        pos: 0,
+        cur: HKey::Usize(0),
+    }
+}
+
+fn val_lender<W: WordOf>(inp: &Inputs) -> ValLender<W> {
+    ValLender {
+        f: inp.vf.clone(),
+        faults: inp.faults.clone(),
+        seen: inp.seen.clone(),
+        pass: 0,
+        pos: 0,
+        cur: W::of_u64(0),
+    }
+}
+
+fn wrap<F: Owned + 'static>(r: anyhow::Result<F>) -> BuildOut {
+    match r {
+        Ok(f) => BuildOut { built: Some(Box::new(f)), err: None },
+        Err(e) => BuildOut { built: None, err: Some(classify(e)) },
+    }
+}
+
+macro_rules! func_box {
+    ($op:expr, $inp:expr, $W:ty, $S:ty, $E:ty) => {
+        wrap(configure!(VBuilder::<$W, Box<[$W]>, $S, $E>::default(), $op).try_build_func::<HKey>(
+            key_lender($inp),
+            val_lender::<$W>($inp),
+            no_logging![],
+        ))
+    };
+}
+macro_rules! func_bfv {
+    ($op:expr, $inp:expr, $W:ty, $S:ty, $E:ty) => {
+        wrap(configure!(VBuilder::<$W, BitFieldVec<$W>, $S, $E>::default(), $op).try_build_func::<HKey>(
+            key_lender($inp),
+            val_lender::<$W>($inp),
+            no_logging![],
+        ))
+    };
+}
+macro_rules! filter_box {
+    ($op:expr, $inp:expr, $W:ty, $S:ty, $E:ty) => {
+        wrap(
+            configure!(VBuilder::<$W, Box<[$W]>, $S, $E>::default(), $op)
+                .try_build_filter::<HKey>(key_lender($inp), no_logging![]),
+        )
+    };
+}
+macro_rules! filter_bfv {
+    ($op:expr, $inp:expr, $W:ty, $S:ty, $E:ty) => {
+        wrap(configure!(VBuilder::<$W, BitFieldVec<$W>, $S, $E>::default(), $op).try_build_filter::<HKey>(
+            key_lender($inp),
+            get_usize($op, "bits"),
+            no_logging![],
+        ))
+    };
+}
+
+/// The instantiations of the builder compiled into the executor. Each one
+/// costs more than two seconds of compile time (the whole solver is generic),
+/// so the table is sparse: with the default logic every slice word for
+/// functions and filters and the bit-field backend on the widest and the
+/// narrowest word; with the other three logics a bit-field function over
+/// `usize` and a `Box<[u8]>` filter (what the crate's own tests build); the
+/// MWHC logics (a feature of sux) with one function and one filter.
+/// `COMBOS` in lib/gen_vbuild.py lists the same table.
+fn do_build(op: &Value, inp: &Inputs) -> BuildOut {
+    type S2 = [u64; 2];
+    type S1 = [u64; 1];
+    let kind = op["kind"].as_str().unwrap_or("func");
+    let backend = op["backend"].as_str().unwrap_or("box");
+    let wt = op["wt"].as_str().unwrap_or("usize");
+    let logic = op["logic"].as_str().unwrap_or("shards");
+    let sig = op["sig"].as_u64().unwrap_or(2);
+    match (logic, sig, kind, backend, wt) {
+        ("shards", 2, "func", "box", "u8") => func_box!(op, inp, u8, S2, FuseLge3Shards),
+        ("shards", 2, "func", "box", "u16") => func_box!(op, inp, u16, S2, FuseLge3Shards),
+        ("shards", 2, "func", "box", "u32") => func_box!(op, inp, u32, S2, FuseLge3Shards),
+        ("shards", 2, "func", "box", "u64") => func_box!(op, inp, u64, S2, FuseLge3Shards),
+        ("shards", 2, "func", "box", "usize") => func_box!(op, inp, usize, S2, FuseLge3Shards),
+        ("shards", 2, "func", "bfv", "usize") => func_bfv!(op, inp, usize, S2, FuseLge3Shards),
+        ("shards", 2, "func", "bfv", "u8") => func_bfv!(op, inp, u8, S2, FuseLge3Shards),
+        ("shards", 2, "filter", "box", "u8") => filter_box!(op, inp, u8, S2, FuseLge3Shards),
+        ("shards", 2, "filter", "box", "u16") => filter_box!(op, inp, u16, S2, FuseLge3Shards),
+        ("shards", 2, "filter", "box", "u32") => filter_box!(op, inp, u32, S2, FuseLge3Shards),
+        ("shards", 2, "filter", "box", "u64") => filter_box!(op, inp, u64, S2, FuseLge3Shards),
+        ("shards", 2, "filter", "bfv", "u64") => filter_bfv!(op, inp, u64, S2, FuseLge3Shards),
+        ("shards", 2, "filter", "bfv", "u8") => filter_bfv!(op, inp, u8, S2, FuseLge3Shards),
+
+        ("noshards", 2, "func", "bfv", "usize") => func_bfv!(op, inp, usize, S2, FuseLge3NoShards),
+        ("noshards", 2, "filter", "box", "u8") => filter_box!(op, inp, u8, S2, FuseLge3NoShards),
+        ("noshards", 1, "func", "bfv", "usize") => func_bfv!(op, inp, usize, S1, FuseLge3NoShards),
+        ("noshards", 1, "filter", "box", "u8") => filter_box!(op, inp, u8, S1, FuseLge3NoShards),
+        ("fullsigs", 2, "func", "bfv", "usize") => func_bfv!(op, inp, usize, S2, FuseLge3FullSigs),
+        ("fullsigs", 2, "filter", "box", "u8") => filter_box!(op, inp, u8, S2, FuseLge3FullSigs),
+        // MWHC logics (feature `mwhc` of sux): finely sharded peeling at moderate sizes
+        #[cfg(feature = "mwhc")]
+        ("mwhc", 2, "func", "bfv", "usize") => func_bfv!(op, inp, usize, S2, Mwhc3Shards),
+        #[cfg(feature = "mwhc")]
+        ("mwhc", 2, "filter", "box", "u8") => filter_box!(op, inp, u8, S2, Mwhc3Shards),
+        #[cfg(feature = "mwhc")]
+        ("mwhcnoshards", 2, "func", "bfv", "usize") => func_bfv!(op, inp, usize, S2, Mwhc3NoShards),
+        c => panic!("builder instantiation not compiled into the executor: {c:?}"),
+    }
+}
+
+// --------------------------------------------------------------------------
+// interpreter
+// --------------------------------------------------------------------------
+fn wide_or_plain(x: u128, wide: bool) -> Value {
+    if wide {
+        json!(limbs(x))
+    } else {
+        json!(x as u64)
+    }
+}
+
+fn idx_list(op: &Value) -> Vec<u64> {
+    // either an explicit list "idx" or a range "from", "count"
+    if let Some(a) = op["idx"].as_array() {
+        a.iter().map(|x| x.as_u64().unwrap()).collect()
+    } else {
+        let from = op["from"].as_u64().unwrap();
+        let count = op["count"].as_u64().unwrap();
+        (from..from + count).collect()
+    }
+}
+
+fn short(msg: &str) -> String {
+    msg.chars().take(120).collect::<String>().replace('"', "'")
+}
+
+/// Number of `hang` events already in the trace being written (the runner
+/// restarts the executor after each hang). A hang is a violation whatever
+/// follows; once three builds have hung, the remaining *small* builds of the
+/// trace run under a short watchdog so that a change that makes a whole class
+/// of builds loop forever does not cost the full budget hundreds of times.
+fn hangs_so_far() -> usize {
+    static N: std::sync::OnceLock<usize> = std::sync::OnceLock::new();
+    *N.get_or_init(|| {
+        std::env::args()
+            .nth(2)
+            .and_then(|p| std::fs::read_to_string(p).ok())
+            .map(|t| t.lines().filter(|l| l.contains("\"out\":\"hang\"")).count())
+            .unwrap_or(0)
+    })
+}
+
+pub fn run(ep: &Value, ctx: &mut Ctx) {
+    sux::verif::set_build_event(hook);
+    let kf = KeyFn::parse(&ep["keyfn"]);
+    let kt = Kt::parse(ep["kt"].as_str().unwrap_or("usize"));
+    let mut owned: Option<Box<dyn Owned>> = None;
+    let mut view: Option<Box<dyn Q>> = None;
+    let mut key = HKey::Usize(0);
+
+    let hdr = json!({"op": "BEGIN", "fam": "vbuild", "src": ep.get("src").cloned().unwrap_or(json!("?")),
+                     "kt": ep.get("kt").cloned().unwrap_or(json!("usize")), "keyfn": ep["keyfn"].clone()});
+    ctx.begin(&hdr);
+    ctx.emit(&hdr, "ret", json!({}));
+
+    for op in ep["ops"].as_array().unwrap() {
+        ctx.begin(op);
+        let name = op["op"].as_str().unwrap();
+        if name == "build" {
+            view = None;
+            owned = None;
+            if hangs_so_far() >= 3 {
+                let n = get_usize(op, "n");
+                let cap = if n < 100 { 2_000 } else if n < 5000 { 15_000 } else { 120_000 };
+                ctx.set_budget_ms(ep.get("budget_ms").and_then(|v| v.as_u64()).unwrap_or(20_000).min(cap));
+            }
+            let mut subst = HashMap::new();
+            if let Some(a) = op["subst"].as_array() {
+                for s in a {
+                    subst.insert(s[0].as_u64().unwrap() as usize, s[1].as_u64().unwrap());
+                }
+            }
+            let inp = Inputs {
+                seq: Arc::new(KeySeq { f: kf.clone(), n: get_usize(op, "n"), subst }),
+                kt,
+                faults: Arc::new(Faults::parse(op)),
+                seen: Arc::new(Mutex::new(Seen::default())),
+                vf: ValFn::parse(&op["vals"]),
+            };
+            EVENTS.lock().unwrap().clear();
+            let r = guard(|| do_build(op, &inp));
+            let events: Vec<Value> = EVENTS.lock().unwrap().iter().map(|(k, v)| json!([k, v])).collect();
+            let seen = inp.seen.lock().unwrap();
+            let mut fields = json!({"events": events, "kreads": seen.kreads, "vreads": seen.vreads,
+                                    "krewinds": seen.krewinds, "vrewinds": seen.vrewinds});
+            match r {
+                Ok(b) => {
+                    let (res, err, emsg) = match &b.err {
+                        None => ("ok", json!([]), String::new()),
+                        Some((k, m)) => ("err", json!([k]), m.clone()),
+                    };
+                    fields["res"] = json!(res);
+                    fields["err"] = err;
+                    fields["emsg"] = json!(short(&emsg));
+                    owned = b.built;
+                    ctx.emit(op, "ret", fields);
+                }
+                Err(msg) => {
+                    fields["msg"] = json!(short(&msg));
+                    ctx.emit(op, "panic", fields);
+                }
+            }
+            continue;
+        }
+        if name == "reload" {
+            let mode = op["mode"].as_str().unwrap_or("full");
+            let r = match owned.as_ref() {
+                None => Ok(None),
+                Some(o) => guard(|| o.reload(mode)).map(Some),
+            };
+            match r {
+                Ok(None) => ctx.emit(op, "na", json!({})),
+                Ok(Some(Ok(Loaded::Full(f)))) => {
+                    view = None;
+                    owned = Some(f);
+                    ctx.emit(op, "ret", json!({"res": "ok"}));
+                }
+                Ok(Some(Ok(Loaded::View(v)))) => {
+                    view = Some(v);
+                    ctx.emit(op, "ret", json!({"res": "ok"}));
+                }
+                Ok(Some(Err(e))) => ctx.emit(op, "ret", json!({"res": format!("error {}", short(&e))})),
+                Err(msg) => ctx.emit(op, "panic", json!({"msg": short(&msg)})),
+            }
+            continue;
+        }
+        // ---- queries on the structure under test (the loaded copy after a reload)
+        let q: Option<&dyn Q> = match (&view, &owned) {
+            (Some(v), _) => Some(v.as_ref()),
+            (None, Some(o)) => Some(o.as_q()),
+            _ => None,
+        };
+        let Some(q) = q else {
+            ctx.emit(op, "na", json!({}));
+            continue;
+        };
+        let wide = op["wide"].as_bool().unwrap_or(false);
+        let key = &mut key;
+        let r: Result<Option<Value>, String> = match name {
+            "len" => guard(|| Some(json!(q.q_len()))),
+            "is_empty" => guard(|| Some(json!(q.q_is_empty()))),
+            "hash_bits" => guard(|| q.q_hash_bits().map(|b| json!(b))),
+            "mem_size" => guard(|| Some(json!(q.q_mem()))),
+            "get" => guard(|| {
+                let mut out = Vec::new();
+                for i in idx_list(op) {
+                    kt.set(&kf, i, key);
+                    out.push(wide_or_plain(q.q_get(key), wide));
+                }
+                Some(Value::Array(out))
+            }),
+            "get_unaligned" => guard(|| {
+                let mut out = Vec::new();
+                for i in idx_list(op) {
+                    kt.set(&kf, i, key);
+                    out.push(wide_or_plain(q.q_get_unaligned(key)?, wide));
+                }
+                Some(Value::Array(out))
+            }),
+            "contains" | "contains_unaligned" | "index" => guard(|| {
+                let mut out = Vec::new();
+                for i in idx_list(op) {
+                    kt.set(&kf, i, key);
+                    out.push(json!(match name {
+                        "contains" => q.q_contains(key)?,
+                        "index" => q.q_index(key)?,
+                        _ => q.q_contains_unaligned(key)?,
+                    }));
+                }
+                Some(Value::Array(out))
+            }),
+            // number of positives among the key indices from .. from + m
+            "probe" => guard(|| {
+                let from = op["from"].as_u64().unwrap();
+                let m = op["m"].as_u64().unwrap();
+                let mut pos = 0u64;
+                for i in from..from + m {
+                    kt.set(&kf, i, key);
+                    pos += q.q_contains(key)? as u64;
+                }
+                Some(json!(pos))
+            }),
+            other => panic!("unknown vbuild op {other}"),
+        };
+        match r {
+            Ok(Some(v)) => ctx.emit(op, "ret", json!({"res": v})),
+            Ok(None) => ctx.emit(op, "na", json!({})),
+            Err(msg) => ctx.emit(op, "panic", json!({"msg": short(&msg)})),
+        }
+    }
 }
